@@ -134,7 +134,7 @@ class SdoServer(SdoBase):
         command, index, subindex = SDO_STRUCT.unpack_from(data)
         if command & 0x1 == INITIATE_BLOCK_TRANSFER:
             # The abort must refer to the object addressed by this request,
-            # a segmented transfer in progress keeps its own object
+            # not to the one of a transfer in progress (which it ends)
             self.abort(0x05040001, index, subindex)
         else:
             self.abort(0x05040001)
@@ -201,9 +201,9 @@ class SdoServer(SdoBase):
         """Abort current transfer."""
         if index is None:
             index, subindex = self._index, self._subindex
-            # An abort ends the transfer in progress, later segments of it
-            # are refused
-            self._transfer = None
+        # An abort ends the transfer in progress, later segments of it
+        # are refused
+        self._transfer = None
         data = struct.pack("<BHBL", RESPONSE_ABORTED,
                            index, subindex, abort_code)
         self.send_response(data)
